@@ -57,6 +57,9 @@ def gen_fixed(rng, nmax):
         cps = sorted(set(cps) | {n - 1})
     if n > 2 and rng.random() < 0.2:
         cps = sorted(set(cps) | {1})
+    if rng.random() < 0.02:  # hundreds of segments (segment labels beyond 127 / 255)
+        n = rng.randint(400, 900)
+        cps = sorted(rng.sample(range(1, n), rng.randint(130, min(n - 1, 400))))
     lo = Fraction(rng.randint(-8, 4), 4)
     hi = lo + Fraction(rng.randint(0, 12), 4)
     return {"n": n, "cps": cps, "X": [rng.randint(-3, 3) for _ in range(n)], "stat": rng.choice(list(STATS)),
